@@ -93,3 +93,24 @@ Proof.
     rewrite E2. repeat split; try lra; lia.
   - repeat split; try lra; lia.
 Qed.
+
+(* ---- LOS with parallax errors: the three treatments are ordered along the line ---- *)
+Lemma erf_regime_monotone lo hi d1 d2 :
+  lo <= hi -> d1 <= d2 -> (erf_regime lo hi d1 <= erf_regime lo hi d2)%nat.
+Proof.
+  intros Hlh Hd. unfold erf_regime.
+  destruct (Qle_bool d1 hi) eqn:A1, (Qle_bool d2 hi) eqn:A2, (Qle_bool d1 lo) eqn:B1, (Qle_bool d2 lo) eqn:B2;
+    try lia; exfalso;
+    repeat match goal with
+           | H : Qle_bool _ _ = true |- _ => apply Qle_bool_iff in H
+           | H : Qle_bool ?a ?b = false |- _ =>
+             assert (b < a) by (destruct (Qlt_le_dec b a) as [L|L]; [exact L | apply Qle_bool_iff in L; congruence]); clear H
+           end; lra.
+Qed.
+Lemma erf_regime_spec lo hi d :
+  (d <= lo -> lo <= hi -> erf_regime lo hi d = 0%nat) /\ (hi < d -> erf_regime lo hi d = 2%nat).
+Proof.
+  unfold erf_regime. split.
+  - intros H1 H2. assert (H3 : d <= hi) by lra. apply Qle_bool_iff in H1. apply Qle_bool_iff in H3. rewrite H3, H1. reflexivity.
+  - intro H. destruct (Qle_bool d hi) eqn:E; [apply Qle_bool_iff in E; lra | reflexivity].
+Qed.
